@@ -154,6 +154,20 @@ fn alphabet() -> Vec<Dev> {
             }
         }));
     }
+    // a DISABLED variant declared before / after the catch-all: its names are ordinary unmatched input
+    for with_ser in [false, true] {
+        d.push(dev(format!("Kk.disabled{}", if with_ser { " + serialize=\"gone\"" } else { "" }), &["dis", "ser"], move |s| {
+            if let Some(v) = s.variants.iter_mut().find(|v| v.ident == "Kk") {
+                v.disabled = true;
+                if with_ser {
+                    v.serialize.push("gone".into());
+                }
+                true
+            } else {
+                false
+            }
+        }));
+    }
     d.push(dev("Kk.ascii_case_insensitive", &["aci"], |s| {
         if let Some(v) = s.variants.iter_mut().find(|v| v.ident == "Kk") {
             v.aci = Some(Aci::Bare);
